@@ -6,7 +6,7 @@ ID = 'C04'
 ENGINE = 'detsched'
 TECHNIQUE = 'runtime monitoring under a deterministic cooperative scheduler: offline history checkers (exactly-once, deque-model replay, per-poster order, non-overlap, lost-wakeup at quiescence)'
 RULE = ('C05 scenarios (1-4 posters x 1-6 unique-id events, fifo/lifo mixed, handlers that post further events, spied/un-spied, instrumented '
-        'or not) run to quiescence under seeded random / PCT schedules; recorded: post call/return steps, the linearised operation log of '
+        'or not; in 40% of the runs additionally 0-2 finite timed sources and 0-3 fabric publications the object subscribed to) run to quiescence under seeded random / PCT schedules; recorded: post call/return steps, the linearised operation log of '
         'the object\'s deque (logging deque subclass, atomic with each operation), dispatch enter/exit records from a harness subclass. '
         'Checked: every returned post is exactly one append (fifo) / appendleft (lifo) of that event inside its call interval; the dispatch '
         'sequence equals the popleft sequence and a replayed deque model; every posted id dispatched exactly once, none twice, none '
@@ -14,7 +14,7 @@ RULE = ('C05 scenarios (1-4 posters x 1-6 unique-id events, fifo/lifo mixed, han
         'lost wake-up). distinct_nontrivial = distinct context-switch sequences of runs that entered a race window')
 CASES = {'quick': 1200, 'thorough': 100000}
 BUDGET = {'quick': 50, 'thorough': 300}
-REQUIRE = {'runs_checked': 500, 'poster_between_token_put_and_append': 50, 'consumer_between_get_and_popleft': 50, 'events_dispatched': 3000}
+REQUIRE = {'runs_checked': 500, 'runs_with_live_output_on': 100, 'timed_events_expected': 200, 'published_events_expected': 200, 'poster_between_token_put_and_append': 50, 'consumer_between_get_and_popleft': 50, 'events_dispatched': 3000}
 ASSUME = ['queue capacity (500) is not reached', 'runs cut by the C05 step budget are attributed to C05 and excluded here']
 ANNOUNCE_CASES = True
 
@@ -24,7 +24,15 @@ def run_case(ctx, n):
   plans, fan, nev = c05.gen_plan(rng)
   spied, instrumented = rng.random() < 0.5, rng.random() < 0.7
   before = (ctx.counters.get('poster_between_token_put_and_append', 0), ctx.counters.get('consumer_between_get_and_popleft', 0))
-  result, s, hist, ao = c05.run_scenario(ctx, rng, plans, fan, nev, spied, instrumented, check=aosim.check_history)
+  extras = None
+  if rng.random() < 0.4:
+    extras = {'timed': [(rng.choice(['fifo', 'lifo']), rng.choice([0.01, 0.05]), rng.randint(1, 3), rng.choice([True, False])) for _ in range(rng.randint(0, 2))],
+              'pubs': list(range(rng.randint(0, 3))), 'sub_kind': rng.choice(['fifo', 'lifo'])}
+    ctx.count('runs_with_timed_or_published_events')
+  if spied and rng.random() < 0.3:
+    extras = dict(extras or {}, live=(True, rng.random() < 0.5))
+    ctx.count('runs_with_live_output_on')
+  result, s, hist, ao = c05.run_scenario(ctx, rng, plans, fan, nev, spied, instrumented, check=aosim.check_history, extras=extras)
   wit = {'plans': plans, 'fan': fan, 'spied': spied, 'instrumented': instrumented, 'policy': s.policy, 'p_switch': s.p_switch,
          'switch_trail_tail': s.trail[-30:]}
   if result['verdict'] is not None:
@@ -38,6 +46,19 @@ def run_case(ctx, n):
   if result['thread_exceptions']:
     ctx.violation('C04/exception-in-thread', 'a thread died: %r' % result['thread_exceptions'], wit)
     return
+  if extras and 'timed' in extras:
+    # events from timed sources: exactly `times` dispatches each; published events: exactly one each
+    import collections
+    cnt = collections.Counter(d['uid'] for d in hist.dispatch if d['sig'] in ('EVT', 'C04_PUB') and isinstance(d['uid'], tuple))
+    for i, (kind, period, times, deferred) in enumerate(extras['timed']):
+      ctx.count('timed_events_expected', times)
+      if cnt.get(('t', i), 0) != times:
+        result['findings'].append(('C04/timed-event-dispatch-count', 'the event of timed source %d (times=%d, %s) was dispatched %d times' % (i, times, kind, cnt.get(('t', i), 0))))
+    for k in extras['pubs']:
+      ctx.count('published_events_expected')
+      if cnt.get(('p', k), 0) != 1:
+        result['findings'].append(('C04/published-event-dispatch-count', 'publication %d (the object subscribed %s before start) was dispatched %d times' % (k, extras['sub_kind'], cnt.get(('p', k), 0))))
+  wit['extras'] = extras
   for key, what in result['findings'][:1]:
     ctx.violation(key, what, dict(wit, posts=hist.posts[:30], dispatched=[d['uid'] for d in hist.dispatch][:40]))
   if n < 2:
